@@ -152,7 +152,12 @@ func parseJSONFeature(keys *parseKeys, opts *ParseOptions) (Object, error) {
 	if err := parseBBoxAndExtras(&g.extra, keys, opts); err != nil {
 		return nil, err
 	}
-	if point, ok := g.base.(*Point); ok {
+	point, ok := g.base.(*Point)
+	if spoint, simple := g.base.(*SimplePoint); simple {
+		// with AllowSimplePoints the geometry of a Circle is a SimplePoint
+		point, ok = &Point{base: spoint.Point}, true
+	}
+	if ok {
 		if g.extra != nil {
 			members := g.extra.members
 			if !opts.DisableCircleType &&
